@@ -114,5 +114,13 @@ theorem lzmaDecompress_safe (rd : Rd) (opts : Options) :
   refine MSafe_pure.mpr ?_
   dsimp only at hl1 hl2 ⊢; omega
 
+theorem lzmaDecompress_no_panic (rd : Rd) (opts : Options) (snk : Sink) (w : String) :
+    (lzmaDecompress rd opts snk).2 ≠ .error (.panic w) :=
+  (lzmaDecompress_safe rd opts snk).ne_panic w
+
+theorem lzmaDecompress_terminates (rd : Rd) (opts : Options) (snk : Sink) :
+    (lzmaDecompress rd opts snk).2 ≠ .error .fuel :=
+  (lzmaDecompress_safe rd opts snk).ne_fuel
+
 end Safety
 end Lzma
